@@ -369,3 +369,68 @@ def run_witness(tree, name, timeout=15):
         return "ok"
     last = (r.stderr.strip().splitlines() or ["?"])[-1]
     return "raises:" + last.split(":")[0]
+
+
+# ------------------------------------------------------------------ C16: static sufficient conditions G2-G4 (cheap: many seeds)
+
+def g_violations(sc):
+    """G2 every subnet has a host vulnerable to some exploit; G3 every sensitive host is root-vulnerable (root exploit,
+    or exploit + escalation applicable to its OS); G4 every firewall rule into a non-user subnet admits a service
+    for which some host of the destination is exploit-vulnerable (user<->user rules admit everything)"""
+    v = []
+
+    def e_ok(h, e):
+        return bool(h.services[e["service"]]) and (e["os"] is None or bool(h.os[e["os"]]))
+
+    def pe_ok(h, pe):
+        return bool(h.processes[pe["process"]]) and (pe["os"] is None or bool(h.os[pe["os"]]))
+    nS = len(sc.subnets)
+    for s in range(1, nS):
+        hs = [h for a, h in sc.hosts.items() if a[0] == s]
+        if not any(e_ok(h, e) for h in hs for e in sc.exploits.values()):
+            v.append("C16.G2-subnet-has-vulnerable-host")
+    for a in sc.sensitive_hosts:
+        h = sc.hosts[a]
+        ok = any(e_ok(h, e) and (e["access"] == 2 or any(pe_ok(h, pe) for pe in sc.privescs.values()))
+                 for e in sc.exploits.values())
+        if not ok:
+            v.append("C16.G3-sensitive-host-root-vulnerable")
+    for (a, b), allowed in sc.firewall.items():
+        if b == 0:
+            continue
+        hs = [h for ad, h in sc.hosts.items() if ad[0] == b]
+        if not any(e["service"] in allowed and e_ok(h, e) for h in hs for e in sc.exploits.values()):
+            v.append("C16.G4-firewall-admits-an-exploitable-service")
+    return sorted(set(v))
+
+
+def _static_worker(args):
+    tree, p, seeds = args
+    G = _import(tree)
+    out = []
+    for s in seeds:
+        try:
+            sc = G().generate(seed=s, **p)
+            gv = g_violations(sc)
+            if gv:
+                out.append({"params": p, "seed": s, "violations": gv})
+        except Exception as e:
+            out.append({"params": p, "seed": s, "violations": [f"C15.generate-raised:{type(e).__name__}"]})
+    return out
+
+
+def run_static(tree, tier, jobs=16):
+    """benchmark parameter sets x many seeds, static conditions only"""
+    if tree not in sys.path:
+        sys.path.insert(0, tree)
+    from nasim.scenarios.benchmark.generated import AVAIL_GEN_BENCHMARKS as B
+    names = ["tiny-gen", "small-gen", "medium-gen", "large-gen"] if tier == "quick" else [n for n in B if "pocp" not in n]
+    nseeds = 120 if tier == "quick" else 400
+    args = []
+    for n in names:
+        p = {k: v for k, v in B[n].items() if k not in ("name", "seed", "max_score")}
+        for lo in range(0, nseeds, 20):
+            args.append((tree, p, list(range(lo, lo + 20))))
+    res = _run_pool(_static_worker, args, jobs, 300 if tier == "quick" else 1800)
+    bad = [r for rs in res if isinstance(rs, list) for r in rs]
+    return bad, len(args) * 20
